@@ -211,6 +211,19 @@ class XsdWildcard(XsdComponent):
     def _has_occurs_restriction(self, other: 'XsdWildcard') -> bool:
         return True
 
+    def _absolute_other(self) -> 'XsdWildcard':
+        """
+        The value '##other' is relative to the target namespace of the wildcard.
+        For operating with a wildcard of another target namespace returns an
+        equivalent copy that uses the absolute form not(absent, targetNamespace).
+        """
+        if '##other' not in self.namespace:
+            return self
+        wildcard = copy(self)
+        wildcard.namespace = set()
+        wildcard.not_namespace = {'', self.target_namespace}
+        return wildcard
+
     @schema_cache
     def is_restriction(self, other: Union[ModelParticleType, 'XsdAnyAttribute'],
                        check_occurs: bool = True) -> bool:
@@ -220,6 +233,10 @@ class XsdWildcard(XsdComponent):
             return False
 
         assert isinstance(other, XsdWildcard)
+        if self.target_namespace != other.target_namespace and \
+                ('##other' in self.namespace or '##other' in other.namespace):
+            return self._absolute_other().is_restriction(other._absolute_other(), check_occurs)
+
         if other.process_contents == 'strict' and self.process_contents != 'strict':
             return False
         elif other.process_contents == 'lax' and self.process_contents == 'skip':
@@ -268,6 +285,12 @@ class XsdWildcard(XsdComponent):
 
     def union(self, other: Union['XsdAnyElement', 'XsdAnyAttribute']) -> None:
         """Update an XSD wildcard with the union of itself and another XSD wildcard."""
+        if self.target_namespace != other.target_namespace:
+            other = other._absolute_other()  # type: ignore[assignment]
+            if '##other' in self.namespace:
+                self.namespace.clear()
+                self.not_namespace = {'', self.target_namespace}
+
         not_qname = {
             x for x in self.not_qname
             if x in other.not_qname or
@@ -344,6 +367,12 @@ class XsdWildcard(XsdComponent):
 
     def intersection(self, other: Union['XsdAnyElement', 'XsdAnyAttribute']) -> None:
         """Update an XSD wildcard with the intersection of itself and another XSD wildcard."""
+        if self.target_namespace != other.target_namespace:
+            other = other._absolute_other()  # type: ignore[assignment]
+            if '##other' in self.namespace:
+                self.namespace.clear()
+                self.not_namespace = {'', self.target_namespace}
+
         if self.not_qname:
             self.not_qname.update(other.not_qname)
         else:
@@ -595,6 +624,12 @@ class XsdAnyElement(XsdWildcard, ParticleMixin,
             if isinstance(other, elements.XsdElement):
                 return other.is_overlap(self)
             return False
+
+        if self.target_namespace != other.target_namespace and \
+                ('##other' in self.namespace or '##other' in other.namespace):
+            w1, w2 = self._absolute_other(), other._absolute_other()
+            assert isinstance(w1, XsdAnyElement)
+            return w1.is_overlap(w2)
 
         if self.not_namespace:
             if other.not_namespace:
